@@ -100,5 +100,5 @@ Definition corr_session (c : list call * list Z) : bool :=
   let '(cs, want) := c in zs_eqb (map scode (run_session cs)) want.
 
 (* the events of one is_odf_encrypted call *)
-Definition corr_odf_probe (c : limits * bool * zip_oracle * list event) : bool :=
-  let '(L, z, o, want) := c in evs_eqb (odf_probe_events L 0%N z o) want.
+Definition corr_odf_probe (c : limits * bool * zip_oracle * bool * list event) : bool :=
+  let '(L, z, o, m, want) := c in evs_eqb (odf_probe_events L 0%N z o m) want.
